@@ -155,6 +155,9 @@ var bodyLib = map[string][]LibFn{
 	"bytes.ReplaceAll": {
 		{Args: []string{"bytes", "bytes", "bytes"}, Ret: []string{"bytes"}, Lits: map[int]string{1: "\r", 2: ""}, Tmpl: "(Chan.dropCR %0)"},
 	},
+	"strings.Contains": {{Args: []string{"bytes", "bytes"}, Ret: []string{"bool"}, Tmpl: "(isInfix %1 %0)"}},
+	"bytes.Equal":      {{Args: []string{"bytes", "bytes"}, Ret: []string{"bool"}, Tmpl: "(%0 == %1)"}},
+	"bytes.HasSuffix":  {{Args: []string{"bytes", "bytes"}, Ret: []string{"bool"}, Tmpl: "(hasPrefix (List.reverse %0) (List.reverse %1))"}},
 	"bytes.HasPrefix":  {{Args: []string{"bytes", "bytes"}, Ret: []string{"bool"}, Tmpl: "(hasPrefix %0 %1)"}},
 	"bytes.TrimPrefix": {{Args: []string{"bytes", "bytes"}, Ret: []string{"bytes"}, Tmpl: "(trimPrefix %0 %1)"}},
 	"bytes.TrimSuffix": {{Args: []string{"bytes", "bytes"}, Ret: []string{"bytes"}, Tmpl: "(trimSuffix %0 %1)"}},
